@@ -262,3 +262,150 @@ def c10(ctx):
     ctx.count(label, len(cases), len({json.dumps([c.meta.get('files'), c.meta.get('manifests'), c.meta.get('mutations'), c.ops, c.faults], default=str) for c in cases}),
               samples=[{'files': cases[0].meta.get('files'), 'ops': cases[0].ops, 'impl': slim(res[0][1][1]) if res[0][1][0] == 'ok' else res[0][1]}],
               dist={'kinds': kinds, 'cases_with_full_clause_check': checked})
+
+
+# --------------------------------------------------------------------------- C12
+def meta_of(c):
+    return {k: v for k, v in c.meta.items() if k not in ('paths', 'stamps')}
+
+
+def gen_c12_idem(r):
+    c = PT.gen_update_case(r, rounds=0)
+    upd, save = c.ops[0], c.ops[1]
+    fresh = r.random() < 0.7
+    save2 = ['save', [], 0, [], [], []]
+    c.ops = [upd, save, ['files'], ['stamp']] + ([['reload']] if fresh else []) + [upd, ['updated'], save2, ['stamp']]
+    c.meta['fresh_loader'] = fresh
+    return c
+
+
+def permute_manifests(r, t, which):
+    """shuffle the lines of every Manifest file of the tree (parents' MANIFEST entries go stale, which update repairs)"""
+    n = 0
+    for p, ino in t.files():
+        if p not in which:
+            continue
+        node = t.nodes[ino]
+        raw = OX.plain_bytes(p, node['data'])
+        if raw is None:
+            continue
+        lines = raw.decode('utf8', 'replace').split('\n')
+        body = [x for x in lines if x.strip()]
+        if len(body) < 2:
+            continue
+        r.shuffle(body)
+        data = ('\n'.join(body) + '\n').encode('utf8')
+        fmt = ET.suffix_of(os.path.basename(p))
+        node['data'] = ET.compress(fmt, data) if fmt else data
+        node['size'] = len(node['data'])
+        n += 1
+    return n
+
+
+def gen_c12_pair(r):
+    """two variants of one tree that differ only in enumeration order and in the order of the lines of the old Manifests"""
+    a = GT.Case()
+    t, files, written = GT.build_consistent(r, a, allow_multi=False, dups=False)
+    prior = r.choice(['consistent', 'stale', 'stale', 'absent'])
+    muts = []
+    if prior == 'absent':
+        for p in list(written):
+            d, name = os.path.split(p)
+            di = t.lookup(d)
+            if di is not None:
+                t.unlink(di, name)
+        a.allow_create = True
+        a.meta['manifests'] = []
+    elif prior == 'stale':
+        for _ in range(r.randint(1, 3)):
+            muts.append(GT.mutate(r, a, files, written, r.choice(['content-same-size', 'content-other-size', 'delete', 'stray', 'stray-hidden', 'mtime'])))
+    a.meta['mutations'] = muts
+    a.meta['prior'] = prior
+    a.hash_names = set(GT.GOOD_HASHES)
+    hashes = r.choice(PT.HASHSETS)
+    wm = r.choice([None, None, 0, 60, 200, 100000])
+    fmt = r.choice([None, 'gz', 'bz2', 'xz', 'lzma'])
+    a.opts = (hashes, True, wm, fmt, 'default', None, None, False)
+    a.ops = [['update', '', [], []], ['save', [], 1, [], [], []], ['files']]
+    a.meta['order_seed'] = 0
+    a.tree.hardlinks = True
+    import copy
+    b = copy.copy(a)
+    b.meta = dict(a.meta)
+    b.tree = a.tree.clone()
+    b.tree.hardlinks = True
+    b.meta['order_seed'] = r.randint(1, 5)
+    b.meta['permuted'] = permute_manifests(r, b.tree, set(a.meta.get('manifests') or ()))
+    return a, b
+
+
+def c12(ctx):
+    quick = ctx.tier == 'quick'
+    r = ctx.rng('c12')
+    # (1) idempotence
+    n1 = 700 if quick else 10000
+    with ET.Scratch() as sc:
+        cases = [gen_c12_idem(r) for _ in range(n1)]
+        res = PT.run_cases(ctx, cases, 'tree:update-twice', sc)
+    PT.reclassify(ctx, 'second update of an unchanged tree differs from the reference (C12)')
+    idem_ok = idem_bad = 0
+    for c, i, m in res:
+        if i[0] != 'ok' or any(x[0] != 'ok' for x in i[1]) or len(i[1]) != len(c.ops):
+            continue
+        out = i[1]
+        upd_idx = [k for k, o in enumerate(c.ops) if o[0] == 'updated'][0]
+        queued = out[upd_idx][1]
+        stamps = c.meta.get('stamps') or []
+        probs = []
+        if queued:
+            probs.append(f'the second update queued {queued} for rewriting')
+        if len(stamps) == 2:
+            s1, s2 = stamps
+            for p in sorted(set(s1) | set(s2)):
+                if p not in s1 or p not in s2:
+                    probs.append(f'{p} {"created" if p not in s1 else "deleted"} by the second run')
+                elif s1[p][0] != s2[p][0]:
+                    probs.append(f'{p}: bytes changed by the second run')
+                elif s2[p][1] != ET.STAMP_NS:
+                    probs.append(f'{p}: rewritten by the second run (st_mtime_ns changed)')
+        if probs:
+            idem_bad += 1
+            if not known_finding(ctx, 'C12', c, 'idempotence', probs):
+                ctx.violation('spec', f'update on an unchanged tree is not a no-op: {probs[:3]}',
+                              {'meta': meta_of(c), 'ops': c.ops, 'opts': list(c.opts), 'impl': slim(out), 'tree': PT.describe(c.tree)})
+        else:
+            idem_ok += 1
+    ctx.count('tree:update-twice', len(cases), len({json.dumps([c.meta.get('files'), c.meta.get('manifests'), c.meta.get('mutations'), c.ops], default=str) for c in cases}),
+              samples=[{'files': cases[0].meta.get('files'), 'ops': cases[0].ops, 'opts': list(cases[0].opts)}],
+              dist={'second_run_no_op': idem_ok, 'second_run_wrote': idem_bad,
+                    'runs_not_completing_both_rounds': len(cases) - idem_ok - idem_bad})
+    # (2) canonical bytes under sorting
+    n2 = 400 if quick else 6000
+    pairs = [gen_c12_pair(r) for _ in range(n2)]
+    flat = [x for ab in pairs for x in ab]
+    with ET.Scratch() as sc:
+        res = PT.run_cases(ctx, flat, 'tree:canonical', sc)
+    PT.reclassify(ctx, 'sorted update: written Manifests differ from the reference (C12)')
+    same = differ = 0
+    for k in range(0, len(res), 2):
+        (ca, ia, ma), (cb, ib, mb) = res[k], res[k + 1]
+        for which, xa, xb in (('implementation', ia, ib), ('model', ma, mb)):
+            if xa[0] != 'ok' or xb[0] != 'ok' or len(xa[1]) != 3 or len(xb[1]) != 3 or xa[1][2][0] != 'ok' or xb[1][2][0] != 'ok':
+                continue
+            fa = {p: d for p, d, mt in xa[1][2][1]}
+            fb = {p: d for p, d, mt in xb[1][2][1]}
+            if fa != fb:
+                differ += 1
+                diff = sorted(p for p in set(fa) | set(fb) if fa.get(p) != fb.get(p))
+                if which == 'implementation':
+                    ctx.violation('spec', f'with sorting the written Manifests depend on enumeration order / order of the old entries: {diff[:4]}',
+                                  {'meta_a': meta_of(ca), 'meta_b': meta_of(cb), 'ops': ca.ops, 'opts': list(ca.opts),
+                                   'tree_a': PT.describe(ca.tree), 'tree_b': PT.describe(cb.tree), 'differing': diff})
+                else:
+                    ctx.violation('correspondence', 'tree:canonical: the model itself is order-dependent', {'where': 'tree:canonical', 'differing': diff, 'meta_a': meta_of(ca)})
+            elif which == 'implementation':
+                same += 1
+    ctx.count('tree:canonical', len(flat), len(pairs), samples=[{'files': pairs[0][0].meta.get('files'), 'order_seeds': [0, pairs[0][1].meta['order_seed']],
+                                                               'permuted_manifests': pairs[0][1].meta['permuted']}],
+              dist={'pairs_identical': same, 'pairs_differing': differ,
+                    'pairs_with_permuted_manifests': sum(1 for a, b in pairs if b.meta['permuted'])})
